@@ -786,6 +786,51 @@ def function_aliases(tree: ast.AST) -> ast.AST:
     return ast.fix_missing_locations(_FunctionAliases().visit(tree))
 
 
+class _PairedNames(ast.NodeTransformer):
+    """`if c: a, b = X, Y else: a, b = Y, X` (the only bindings of a and b) -> `ab = [X, Y]` / `ab = [Y, X]` with every
+    read of a / b replaced by ab[0] / ab[1]: an ordered pair is the same thing whether it is kept in two names or in
+    one two-element list."""
+    def visit_FunctionDef(self, node):
+        self.generic_visit(node)
+        params = {a.arg for a in node.args.posonlyargs + node.args.args + node.args.kwonlyargs}
+        for n in list(ast.walk(node)):
+            if not (isinstance(n, ast.If) and n.body and n.orelse):
+                continue
+            def pair(block):
+                hits = [s for s in block if isinstance(s, ast.Assign) and len(s.targets) == 1 and isinstance(s.targets[0], ast.Tuple)
+                        and len(s.targets[0].elts) == 2 and all(isinstance(t, ast.Name) for t in s.targets[0].elts)
+                        and isinstance(s.value, ast.Tuple) and len(s.value.elts) == 2]
+                return hits[0] if len(hits) == 1 else None
+            pa, pb = pair(n.body), pair(n.orelse)
+            if pa is None or pb is None:
+                continue
+            na = [t.id for t in pa.targets[0].elts]
+            if na != [t.id for t in pb.targets[0].elts] or na[0] == na[1] or set(na) & params:
+                continue
+            stores = [x for x in ast.walk(node) if isinstance(x, ast.Name) and x.id in na and isinstance(x.ctx, (ast.Store, ast.Del))]
+            if len(stores) != 4:
+                continue
+            lst = "%s_%s_pair" % (na[0], na[1])
+            if any(isinstance(x, ast.Name) and x.id == lst for x in ast.walk(node)):
+                continue
+            for st in (pa, pb):
+                st.targets = [ast.Name(lst, ast.Store())]
+                st.value = ast.copy_location(ast.List(list(st.value.elts), ast.Load()), st.value)
+
+            class R(ast.NodeTransformer):
+                def visit_Name(self, x):
+                    if x.id in na and isinstance(x.ctx, ast.Load):
+                        return ast.copy_location(ast.Subscript(ast.Name(lst, ast.Load()), ast.Constant(na.index(x.id)), ast.Load()), x)
+                    return x
+            R().visit(node)
+        return node
+    visit_AsyncFunctionDef = visit_FunctionDef
+
+
+def paired_names(tree: ast.AST) -> ast.AST:
+    return ast.fix_missing_locations(_PairedNames().visit(tree))
+
+
 class AnalysisError(Exception):
     """Anchor vanished / unparsable file / floor not met: exit 2, never a pass."""
 
@@ -944,7 +989,7 @@ class Repo:
         from .inline import inline_new_helpers, known_functions, undo_renames
         self.renamed = undo_renames({mod: v[3] for mod, v in raw.items()})
         for mod, (path, rel, src, tree) in raw.items():
-            tree = literal_forms(numpy_idioms(function_aliases(strip_inert(tree))))
+            tree = paired_names(literal_forms(numpy_idioms(function_aliases(strip_inert(tree)))))
             tree, inl, skipped = inline_new_helpers(tree, mod, known_functions())
             if inl:
                 self.inlined[mod] = sorted(set(inl))
